@@ -170,19 +170,26 @@ fn bs(v: bool) -> &'static str {
 }
 
 fn queries(b: &DigitString) -> String {
-    let peeks: Vec<String> = [0usize, 1, 2, 3, 6]
+    // (the last arguments of each list are extreme: queries allocate nothing, so any usize is a legal argument)
+    let peeks: Vec<String> = [0usize, 1, 2, 3, 6, usize::MAX]
         .iter()
         .map(|&k| String::from_utf8_lossy(b.peek(k)).to_string())
         .collect();
-    let frees: String = [0usize, 1, 2, 3, 4, 6].iter().map(|&k| bs(b.is_free(k))).collect();
-    let rfs: String = [(0usize, 1usize), (1, 2), (3, 5), (6, 8), (2, 9), (2, 2), (3, 1)]
+    let frees: String = [0usize, 1, 2, 3, 4, 6, usize::MAX]
+        .iter()
+        .map(|&k| match catch_unwind(AssertUnwindSafe(|| b.is_free(k))) {
+            Ok(v) => bs(v),
+            Err(_) => "P",
+        })
+        .collect();
+    let rfs: String = [(0usize, 1usize), (1, 2), (3, 5), (6, 8), (2, 9), (2, 2), (3, 1), (0, usize::MAX), (1, usize::MAX), (usize::MAX - 1, usize::MAX), (5, 1usize << 40)]
         .iter()
         .map(|&(s, e)| match catch_unwind(AssertUnwindSafe(|| b.is_range_free(s, e))) {
             Ok(v) => bs(v),
             Err(_) => "P",
         })
         .collect();
-    let pfs: String = [0usize, 1, 2, 3, 7]
+    let pfs: String = [0usize, 1, 2, 3, 7, 1usize << 40, usize::MAX]
         .iter()
         .map(|&p| match catch_unwind(AssertUnwindSafe(|| b.is_position_free(p))) {
             Ok(v) => bs(v),
